@@ -467,8 +467,8 @@ def main(tier, seed):
     common.proof_coverage(res, pres, "make -k Props/Properties_C14.vo Props/Examples_C14.vo (coqc 8.16.1) + Print Assumptions",
                           ["Coq 8.16.1 kernel incl. vm_compute (finite checks over the generated layout / write census / strerror table)",
                            "translators t0_consts.py (constants), t14_job.py (IMB_JOB layout from clang+gcc; textual census of writes into "
-                           "descriptors: regular expressions, no alias analysis), t9_strerror.py (switch of imb_get_strerror; textual shape "
-                           "check of imb_set_errno / imb_get_errno)",
+                           "descriptors: regular expressions, no alias analysis), t9_strerror.py + cmini.py (switch of imb_get_strerror; imb_set_errno / imb_get_errno translated "
+                           "statement by statement and proved equal to the model)",
                            "harness/k14_desc.c + harness/imbh.c (correspondence: byte-exact descriptor comparison, error-code views after every call)",
                            "modelled, not verified: the out-of-order managers and kernels are an oracle restricted to the modelled kinds of "
                            "descriptor writes (checked on every job run) and assumed to leave the error mirror alone (checked after every call); "
